@@ -5,7 +5,8 @@
    what the source says now. *)
 From Coq Require Import List NArith ZArith Bool.
 From MirV Require Import Mir.Opcode C15.Defs gen.InsnDescs C15.Validate C15.DocModes C15.TableProofs
-  C15.ValidateProofs C15.VarProofs C15.FuncProofs C15.ErrProofs C15.DeclProofs C15.BoundsProofs C15.Examples.
+  C15.ValidateProofs C15.VarProofs C15.FuncProofs C15.ErrProofs C15.DeclProofs C15.BoundsProofs C15.Examples
+  C15.Safe C15.SafeProofs C15.VarErrProofs.
 Import ListNotations.
 
 (* insn_descs[] is usable as the checker uses it: one row per opcode below MIR_INSN_BOUND, row i
@@ -201,3 +202,76 @@ Theorem header_error_codes : forall fc rp jp before ins e,
           || (code_is (i_code ins) RET && negb (length (i_ops ins) =? length (f_res fc)))) = true).
 Proof. exact header_error_codes_lemma. Qed.
 Print Assumptions header_error_codes.
+
+(* ---------------------------------------------------------------------------------------------
+   Round 2 (audit): clauses of the property that had no theorem. *)
+
+(* "never ... a crash": the checker never indexes an array outside its bounds, whatever is
+   constructed.  Safe.v transcribes MIR_new_insn_arr, MIR_insn_op_mode and MIR_finish_func with
+   every array access (ops[k], prev_insn->ops[1], unspec_protos[u], proto->res_types[k],
+   proto->args[k], curr_func->res_types[i], insn_descs[code].op_modes[nop]) and every use of an
+   operand's union member made partial: an index outside the array yields None.  For EVERY list of
+   instructions, prototypes and function context the strict checker returns Some of the plain
+   checker's verdict, i.e. the out-of-bounds branch is unreachable. *)
+Theorem checker_reads_in_bounds : forall unspec fc insns,
+  s_check_body unspec fc insns = Some (check_body unspec fc insns).
+Proof. exact checker_in_bounds_lemma. Qed.
+Print Assumptions checker_reads_in_bounds.
+
+(* ... and the strict checker is not vacuously total: on instruction lists that did not go
+   through MIR_new_insn_arr, on the pre-C15-3 jcall table index and on a ret with more operands
+   than results (which the header check excludes) it does report the out-of-bounds read. *)
+Theorem strict_checker_detects_out_of_bounds :
+  s_check_header {| f_vararg := false; f_res := []; f_regs := []; f_nvars := 0; f_nglobals := 0 |}
+                 false false [{| i_code := MOV; i_ops := [] |}] {| i_code := BO; i_ops := [OLabel] |} = None
+  /\ s_cell JCALL 5 = None
+  /\ s_expected_of [] {| f_vararg := false; f_res := []; f_regs := []; f_nvars := 0; f_nglobals := 0 |}
+                   RET [OInt 0] 0 = None.
+Proof. exact strict_detects_oob. Qed.
+Print Assumptions strict_checker_detects_out_of_bounds.
+
+(* "with a specific error code", instructions with a variable number of operands.
+   ret: a ret with the right operand count that is rejected is rejected with the code of the
+   violation class of an operand that does not denote a value of its result type's class. *)
+Theorem ret_error_code_specific : forall unspec fc ops e, fc_wf fc -> res_types_ok fc = true ->
+  length ops = length (f_res fc) ->
+  check_ops unspec fc {| i_code := RET; i_ops := ops |} = Err e ->
+  exists j t k o v, nth_error (f_res fc) j = Some t /\ vclass_of_type t = Some k /\ nth_error ops j = Some o
+                    /\ has_class (shape_of fc o) k = false
+                    /\ doc_violation (CIn k) (shape_of fc o) = Some v /\ e = code_of_violation v.
+Proof. exact ret_error_code_specific_lemma. Qed.
+Print Assumptions ret_error_code_specific.
+
+(* switch: MIR_ops_num_error below two operands; otherwise the violation code of the index operand
+   (an integer value) or of an operand that is not a label. *)
+Theorem switch_error_code_specific : forall unspec fc ops e, fc_wf fc ->
+  bind (check_new_insn unspec SWITCH ops) (fun _ => check_ops unspec fc {| i_code := SWITCH; i_ops := ops |}) = Err e ->
+  (length ops < 2 /\ e = E_ops_num)
+  \/ (2 <= length ops
+      /\ exists j o v, nth_error ops j = Some o
+           /\ doc_violation (if j =? 0 then CIn VInt else CLabel) (shape_of fc o) = Some v
+           /\ e = code_of_violation v).
+Proof. exact switch_error_code_specific_lemma. Qed.
+Print Assumptions switch_error_code_specific.
+
+(* call / inline / jcall at MIR_finish_func time, per operand position i >= 2 (creation-time codes:
+   call_error_codes): the verdict is the code of the violation class the prototype implies there --
+   result: an lvalue of the result type's class; scalar parameter: a value of its class; variable
+   part: any valid operand; block memory (block parameter or variable part): negative size ->
+   MIR_wrong_type_error, then the base / index violations. *)
+Theorem call_position_error_code : forall code i s, is_call code = true -> 2 <= i -> shape_wf s = true ->
+  (shape_blk s = true ->
+     check_shape code i OP_INT false s = blk_pos_result s /\ check_shape code i OP_UNDEF false s = blk_pos_result s)
+  /\ (shape_blk s = false ->
+      check_shape code i OP_UNDEF false s = doc_pos_result CAny s
+      /\ forall t k, vclass_of_type t = Some k ->
+           check_shape code i (type2mode t) true s = doc_pos_result (COut k) s
+           /\ check_shape code i (type2mode t) false s = doc_pos_result (CIn k) s).
+Proof. exact VarErrProofs.call_position_error_code. Qed.
+Print Assumptions call_position_error_code.
+
+(* the called address, when it is not an item reference (those are skipped): an integer value *)
+Theorem call_address_error_code : forall code s, is_call code = true -> shape_wf s = true ->
+  match s with SRef _ => True | _ => check_shape code 1 OP_INT false s = doc_pos_result (CIn VInt) s end.
+Proof. exact VarErrProofs.call_address_error_code. Qed.
+Print Assumptions call_address_error_code.
